@@ -11,6 +11,9 @@ var commands = map[string]func([]string){
 	"heap":        cmdHeap,
 	"output":      cmdOutput,
 	"det":         cmdDet,
+	"lits-num":    cmdLitsNum,
+	"lits-str":    cmdLitsStr,
+	"lits-tag":    cmdLitsTag,
 	"conc-sched":  cmdConcSched,
 	"conc-orders": cmdConcOrders,
 	"conc-free":   cmdConcFree,
